@@ -375,6 +375,40 @@ func (e *seqEnv) actForeignTx(t *rapid.T) {
 	e.note("foreign pool gets %s (%s) -> %v", txDesc(e.w, tx), kind, err)
 }
 
+// foreignConflictHead: this pool holds a dense run of a sender's transactions [S:n, S:n+1, ...]; the other node mines
+// ANOTHER transaction for the first nonce only (the same key used elsewhere). The head of the run is consumed by the
+// block although it is not in it; the followers stay valid on the new head and have to stay retrievable.
+func (e *seqEnv) actForeignConflictHead(t *rapid.T) {
+	e.t = t
+	if e.fr == nil {
+		e.actDense(t)
+		return
+	}
+	s := e.r.ReadState()
+	epoch := s.State.Epoch()
+	sender := e.rich[rapid.IntRange(0, len(e.rich)-1).Draw(t, "sender")]
+	to := e.w.Actors[(sender.Idx+1)%len(e.w.Actors)].Addr
+	base := effNonce(s, sender.Addr)
+	here := poolNonces(e.r, sender.Addr, epoch)
+	for n, last := base+1, base+uint32(rapid.IntRange(2, 4).Draw(t, "run")); n <= last; n++ {
+		if len(here[n]) == 0 {
+			e.salt++
+			e.submit(signSend(s, sender, to, epoch, n, 0, e.salt, 20), false, "conflictHead.run")
+		}
+	}
+	fs := e.fr.ReadState()
+	there := poolNonces(e.fr, sender.Addr, epoch)
+	if len(there[base+1]) == 0 {
+		e.salt++
+		if e.fr.Pool.AddExternalTxs(validation.InboundTx, signSend(fs, sender, to, epoch, base+1, 0, e.salt, 20)) != nil {
+			return
+		}
+	}
+	e.counts["foreign.conflict_head"]++
+	e.note("foreign pool mines another transaction for nonce %d of %s (this pool holds its own run from %d on)", base+1, sender, base+1)
+	e.block(t, e.fr, false)
+}
+
 // foreignOvertake: the other node mines, for one of this pool's senders, ANOTHER transaction for the nonce
 // this pool holds as executable (same key used elsewhere / re-signed tx) together with the very
 // transaction this pool holds as pending behind a nonce gap: pool here exec [S:n] pending [S:n+2],
@@ -744,6 +778,7 @@ func TestSequentialModel(t *testing.T) {
 			"emptyBlock":   e.actEmptyBlock,
 			"foreignTx":    e.actForeignTx,
 			"overtake":     e.actForeignOvertake,
+			"conflictHead": e.actForeignConflictHead,
 			"foreignBlock": e.actForeignBlock,
 			"startSync":    e.actStartSync,
 			"stopSync":     e.actStopSync,
